@@ -6,6 +6,7 @@ reported best lies in the box.
 -/
 import MysticVerif.Props.C02
 import MysticVerif.Props.Solve
+import MysticVerif.Props.Reconfig
 
 namespace MysticVerif.C02
 open MysticVerif.Solver MysticVerif.Closed MysticVerif.SolveProps MysticVerif.PowellS
